@@ -433,6 +433,7 @@ class C14(Prop):
             return None
         done = False          # future resolved / stream ended / consumer dropped: later polls are not judged
         yielded = 0
+        parked = False        # the last poll answered Pending and nothing has woken the poller since
         for k, ev in enumerate(case.events):
             body = lines.get(k)
             if body is None:
@@ -450,6 +451,17 @@ class C14(Prop):
                     done = True
                 continue
             items, term = source_history(case, k)
+            if ev[0] == "emit" and kind != "status" and not done and body.startswith("w="):
+                # a consumer that polled, got Pending and parked must be WOKEN by the source event that makes it
+                # ready (stream: any item or the terminal; future: the terminal) — otherwise it stays pending for
+                # ever although nobody polls it by hand (`w` = wake-ups of the poller's waker during this event)
+                makes_ready = term is None and (kind == "stream" or ev[2] == "c" or
+                                                (isinstance(ev[2], list) and ev[2][0] == "e"))
+                if parked and makes_ready:
+                    if body == "w=0":
+                        return {"kind": "lost-wakeup", "event": k,
+                                "detail": f"the consumer was parked (last poll Pending); {ev} made it ready but did not wake it"}
+                    parked = False
             if ev[0] == "emit":
                 if kind == "status":
                     # the downstream of complete_status sees the source unchanged
@@ -475,6 +487,10 @@ class C14(Prop):
                     kd = "pending-after-termination" if term is not None else "ready-before-termination"
                     return {"kind": kd, "event": k, "detail": f"got {body}"}
                 continue
+            if body.endswith("Pending"):
+                parked = True
+            elif body.startswith("poll="):
+                parked = False
             if done:
                 if DROP in case.events[:k] and body != "na":
                     return {"kind": "bad-line", "event": k, "detail": f"poll of a dropped consumer: {body}"}
